@@ -262,6 +262,16 @@ func (s *Server) parseSearchScanBaseTokens(
 ) (
 	vsout []string, tout searchScanBaseTokens, err error,
 ) {
+	defer func() {
+		if err != nil {
+			// The caller gets no tokens back on an error, so it cannot
+			// release the interpreters of the WHEREEVAL filters that were
+			// set up before the error was met. Do it here.
+			for _, whereeval := range t.whereevals {
+				whereeval.Close()
+			}
+		}
+	}()
 	var ok bool
 	if vs, t.key, ok = tokenval(vs); !ok || t.key == "" {
 		err = errInvalidNumberOfArguments
@@ -421,9 +431,20 @@ func (s *Server) parseSearchScanBaseTokens(
 					return
 				}
 
+				// Until the filter is registered below (and released by Close),
+				// every error path has to hand the interpreter back itself.
+				putBack := func() {
+					luaSetRawGlobals(
+						luaState, map[string]lua.LValue{
+							"ARGV": lua.LNil,
+						})
+					s.luapool.Put(luaState)
+				}
+
 				argsTbl := luaState.CreateTable(len(vs), 0)
 				for i = 0; i < nargs; i++ {
 					if vs, arg, ok = tokenval(vs); !ok || arg == "" {
+						putBack()
 						err = errInvalidNumberOfArguments
 						return
 					}
@@ -454,11 +475,13 @@ func (s *Server) parseSearchScanBaseTokens(
 						Upvalues:  make([]*lua.Upvalue, 0),
 					}
 				} else if scriptIsSha {
+					putBack()
 					err = errShaNotFound
 					return
 				} else {
 					fn, err = luaState.Load(strings.NewReader(script), "f_"+shaSum)
 					if err != nil {
+						putBack()
 						err = makeSafeErr(err)
 						return
 					}
